@@ -34,4 +34,6 @@ def main(tier):
     chk.run("R-SIGNCONV", CR.signconv, cx.cpp, floor=500)
     chk.run("R-LOOPCOVER", CR.loopcover, cx.cpp, methods=("ConvertToBinary",), floor=64)
     chk.run("R-CPPRANGE", CR.cpprange, cx.cpp, parts=("mask",), floor=260)
+    chk.run("R-SUBWINDOW", WN.subwindow, cx.cpp, floor=2)
+    chk.run("R-BYTEPATH", C.bytepath, cx.repo, floor=70, side="read")
     return chk.finish()
